@@ -314,9 +314,10 @@ NonString == {"newids", "ids", "doc", "rpathok", "yes", "again"}
 Present(c) == [k \in {f \in DOMAIN c : f \in NonString \/ c[f] # ABSENT} |-> c[k]]
 EmitLine == ToJson([base  |-> base,
                     hist  |-> [k \in 1..Len(hist) |-> Present(hist[k])],
-                    alpha |-> IF Len(hist) < MaxDepth THEN {Present(c) : c \in Alphabet(G)} ELSE {}])
+                    alpha |-> IF Len(hist) < MaxDepth \/ Emit = "allstates"
+                                THEN {Present(c) : c \in Alphabet(G)} ELSE {}])
 EmitInv ==
-  CASE Emit = "states" -> PrintT("@ST " \o EmitLine)
+  CASE Emit \in {"states", "allstates"} -> PrintT("@ST " \o EmitLine)
     [] Emit = "leaves" -> (Len(hist) = MaxDepth => PrintT("@ST " \o EmitLine))
     [] Emit = "roots"  -> (hist = <<>> => PrintT("@ST " \o EmitLine))
     [] OTHER -> TRUE
